@@ -14,12 +14,27 @@ def rule (iname hname : Bytes) (iv hv : Version) : Bool :=
 def ok (iname hname : Bytes) (iv hv : Version) (panicked matched : Bool) : Bool :=
   !panicked && matched == rule iname hname iv hv
 
+/-- numeric MAJOR.MINOR.PATCH of any magnitude (no 64-bit bound: the property speaks of numbers) -/
+def parseBig (bs : Bytes) : Option Version :=
+  match splitOn 46 bs with
+  | [a, b, c] =>
+    match parseDec a, parseDec b, parseDec c with
+    | some x, some y, some z => some ⟨x, y, z⟩
+    | _, _, _ => none
+  | _ => none
+
 /-- for arbitrary raw identifiers: never a panic; a different number of path segments or a
-    different name never matches -/
-def okRaw (incoming hname : Bytes) (panicked matched : Bool) : Bool :=
+    different name never matches; and an identifier with the handler's name whose version segment
+    is numeric MAJOR.MINOR.PATCH — of any magnitude, also beyond 64 bits — is not matched when the
+    major differs or the minor is greater than the handler's (handler version strict) -/
+def okRaw (incoming hname version : Bytes) (panicked matched : Bool) : Bool :=
   !panicked &&
   (match splitOn 47 incoming with
-   | [_, pname, _] => if pname ≠ hname then !matched else true
+   | [_, pname, pver] =>
+     if pname ≠ hname then !matched
+     else match parseBig pver, parseStrict version with
+       | some iv, some hv => if iv.major == hv.major && iv.minor ≤ hv.minor then true else !matched
+       | _, _ => true
    | _ => !matched)
 
 end MevCommit.Spec.C16
